@@ -38,18 +38,18 @@ def handle (args : List String) : String :=
     answer in the notation of the harness layer `rd`: preamble, the blocks read, then `EOF` or the error -/
 def readCut (bs : Bytes) : String :=
   let fuel := 4 * bs.length + 10
-  let header : Prog (Val × Nat × Bool) := do
+  let header : Prog (Val × Nat × Bool × Bool) := do
     let (len, indef) ← readArrayStart
     if len ≠ 3 ∧ !indef then .throw .decoder else do
     let t ← readTextstring fuel
     if upper t ≠ cdnsText then .throw .decoder else do
     let pv ← readVal fuel filePreamble
     let (cnt, bindef) ← readArrayStart
-    pure (pv, cnt, bindef)
+    pure (pv, cnt, bindef, indef)
   match header.run bs with
   | .error e => " " ++ Sch.showErr e
-  | .ok ((pv, cnt, bindef), rest) =>
-    let (blocks, status) := Props.C05.readAll (readBlock fuel) (bs.length + 2) ⟨bindef, cnt, 0⟩ 0 rest
+  | .ok ((pv, cnt, bindef, findef), rest) =>
+    let (blocks, status) := Props.C05.readAll (readBlock fuel) (bs.length + 2) ⟨bindef, cnt, 0, findef⟩ 0 rest
     let tail := match status with | none => "EOF" | some e => Sch.showErr e
     let file : Item := .arr .imm [.tstr .imm cdnsText, toItem filePreamble pv, .arrI (blocks.map fun b => toItem block b.1)]
     match Spec.Cdns.interpretItem file with
